@@ -27,6 +27,10 @@ type Result struct {
 	SimTimeMs  int64            `json:"sim_ms"`
 	Nontrivial bool             `json:"nontrivial"`
 	Invalid    bool             `json:"invalid,omitempty"` // plan is not a meaningful case (shrink candidates)
+	// RaceKey / RaceDetail carry the race detector's report for this run (race
+	// engine). It is a violation of its own next to Key.
+	RaceKey    string `json:"race_key,omitempty"`
+	RaceDetail string `json:"race_detail,omitempty"`
 	// Evals is the number of executions this result stands for (fault
 	// enumeration runs many fault positions for one workload plan).
 	Evals int64 `json:"evals,omitempty"`
@@ -196,7 +200,10 @@ func RaceKey(report string, libPaths []string) (key string, lib bool) {
 				if len(parts) > 2 {
 					parts = parts[len(parts)-2:]
 				}
-				tops[cur] = strings.Join(parts, "/") + ":" + m[2] + "|" + f
+				// the key names files, not lines: which of several racing line
+				// pairs on the same variable is reported first may differ
+				// between the search process and a fresh replay process
+				tops[cur] = strings.Join(parts, "/") + "|" + f + ":" + m[2]
 			}
 		}
 		if len(secs) == 2 && tops[1] != "" {
@@ -238,24 +245,32 @@ func finishRace(c *Check, res *Result) {
 	if d == "" {
 		return
 	}
-	// take the first report of the delta
 	reports := strings.Split(d, "==================")
 	for _, r := range reports {
 		if !strings.Contains(r, "DATA RACE") {
 			continue
 		}
 		key, _ := RaceKey(r, c.LibPaths)
-		if res.Key == "" || strings.HasPrefix(key, "race:") && !strings.HasPrefix(res.Key, "race:") {
-			res.Key = key
-			if len(r) > 3000 {
-				r = r[:3000]
-			}
-			res.Detail = r
+		if len(r) > 3000 {
+			r = r[:3000]
 		}
-		if strings.HasPrefix(key, "race:") {
-			break
+		if strings.HasPrefix(key, "harness/") {
+			// a race inside the harness itself: harness trouble, never a verdict
+			if res.Key == "" || !strings.HasPrefix(res.Key, "harness/") {
+				res.Key, res.Detail = key, r
+			}
+			continue
+		}
+		if res.RaceKey == "" {
+			res.RaceKey, res.RaceDetail = key, r
 		}
 	}
+}
+
+// Matches reports whether the result shows the violation class key (either as
+// the oracle's verdict or as the race detector's).
+func (r *Result) Matches(key string) bool {
+	return key != "" && (r.Key == key || r.RaceKey == key)
 }
 
 // Drive is the body of each check package's single test function. The runner
@@ -283,8 +298,8 @@ func Drive(t *testing.T, c *Check) {
 			p := c.Gen(NewRng(s), s, tier)
 			r := runOne(t, c, p)
 			finishRace(c, r)
-			if r.Key != "" {
-				t.Fatalf("seed %d: %s: %s", s, r.Key, r.Detail)
+			if r.Key != "" || r.RaceKey != "" {
+				t.Fatalf("seed %d: %s %s: %s %s", s, r.Key, r.RaceKey, r.Detail, r.RaceDetail)
 			}
 		}
 	case "search":
@@ -306,21 +321,37 @@ func Drive(t *testing.T, c *Check) {
 			t.Fatal(err)
 		}
 		key := os.Getenv("VERIF_KEY")
-		try := func(q *Plan) string { r := runOne(t, c, q); return r.Key }
+		try := func(q *Plan) string {
+			if r := runOne(t, c, q); r.Matches(key) {
+				return key
+			}
+			return ""
+		}
 		if c.Race {
 			// the detector reports a race once per process: every candidate
 			// runs in a fresh process
-			try = func(q *Plan) string { return replayFresh(q, out) }
+			try = func(q *Plan) string {
+				if r := replayFresh(q, out); r != nil && r.Matches(key) {
+					return key
+				}
+				return ""
+			}
 		}
 		budget := time.Duration(envInt("VERIF_SHRINK_MS", 60000)) * time.Millisecond
 		min, runs := Shrink(p, key, try, c.Simpler, budget, int(envInt("VERIF_SHRINK_RUNS", 4000)))
 		var r *Result
 		if c.Race {
-			r = &Result{Key: key}
+			r = replayFresh(min, out)
+			if r == nil {
+				r = &Result{}
+			}
 		} else {
 			r = runOne(t, c, min)
 		}
-		min.Key, min.Detail, min.Hash = r.Key, r.Detail, r.Hash
+		min.Key, min.Detail, min.Hash = key, r.Detail, r.Hash
+		if r.RaceKey == key {
+			min.Detail = r.RaceDetail
+		}
 		if err := min.Save(os.Getenv("VERIF_RESULT")); err != nil {
 			t.Fatal(err)
 		}
@@ -356,7 +387,8 @@ func Drive(t *testing.T, c *Check) {
 			s := s0 + uint64(i)
 			p := c.Gen(NewRng(s), s, tier)
 			r := runOne(t, c, p)
-			fmt.Printf("H %d %016x %s %s\n", s, p.BodyHash(), r.Hash, r.Key)
+			finishRace(c, r)
+			fmt.Printf("H %d %016x %s %s %s\n", s, p.BodyHash(), r.Hash, r.Key, r.RaceKey)
 		}
 	case "dump":
 		p, err := LoadPlan(os.Getenv("VERIF_PLAN"))
@@ -375,13 +407,13 @@ func Drive(t *testing.T, c *Check) {
 	}
 }
 
-func replayFresh(q *Plan, dir string) string {
+func replayFresh(q *Plan, dir string) *Result {
 	pf := filepath.Join(dir, fmt.Sprintf("cand-%d.json", time.Now().UnixNano()))
 	rf := pf + ".res"
 	defer os.Remove(pf)
 	defer os.Remove(rf)
 	if err := q.Save(pf); err != nil {
-		return "harness/save"
+		return nil
 	}
 	cmd := exec.Command(os.Args[0], "-test.run", "TestCheck", "-test.count", "1", "-test.timeout", "10m")
 	lp := filepath.Join(dir, fmt.Sprintf("race-cand-%d", time.Now().UnixNano()))
@@ -395,13 +427,13 @@ func replayFresh(q *Plan, dir string) string {
 	}()
 	b, err := os.ReadFile(rf)
 	if err != nil {
-		return "harness/no-result"
+		return nil
 	}
 	r := &Result{}
 	if json.Unmarshal(b, r) != nil {
-		return "harness/bad-result"
+		return nil
 	}
-	return r.Key
+	return r
 }
 
 func search(t *testing.T, c *Check, tier, out string) {
@@ -478,27 +510,37 @@ func search(t *testing.T, c *Check, tier, out string) {
 		if len(wo.Samples) < 2 && r.Nontrivial && len(p.JSON()) < 6000 {
 			wo.Samples = append(wo.Samples, p)
 		}
-		if r.Key != "" {
-			if strings.HasPrefix(r.Key, "harness/") {
-				wo.Harness = r.Key + ": " + r.Detail
-				p.Key, p.Detail = r.Key, r.Detail
-				p.Save(filepath.Join(out, fmt.Sprintf("harness-%d.json", worker)))
-				break
-			}
-			if skip[r.Key] {
-				wo.Stats["known_finding_hits:"+r.Key]++
+		stop := false
+		for vi, vk := range []string{r.Key, r.RaceKey} {
+			if vk == "" {
 				continue
 			}
-			if !seenKeys[r.Key] {
-				seenKeys[r.Key] = true
-				p.Key, p.Detail, p.Hash = r.Key, r.Detail, r.Hash
-				pf := filepath.Join(out, fmt.Sprintf("viol-%d-%d.json", worker, len(wo.Violations)))
-				p.Save(pf)
-				wo.Violations = append(wo.Violations, violOut{Key: r.Key, Detail: r.Detail, Plan: pf, Seed: s})
+			det := r.Detail
+			if vi == 1 {
+				det = r.RaceDetail
 			}
-			if len(wo.Violations) >= maxViol || c.Race {
+			if strings.HasPrefix(vk, "harness/") {
+				wo.Harness = vk + ": " + det
+				p.Key, p.Detail = vk, det
+				p.Save(filepath.Join(out, fmt.Sprintf("harness-%d.json", worker)))
+				stop = true
 				break
 			}
+			if skip[vk] {
+				wo.Stats["known_finding_hits:"+vk]++
+				continue
+			}
+			if !seenKeys[vk] {
+				seenKeys[vk] = true
+				q := p.Clone()
+				q.Key, q.Detail, q.Hash = vk, det, r.Hash
+				pf := filepath.Join(out, fmt.Sprintf("viol-%d-%d.json", worker, len(wo.Violations)))
+				q.Save(pf)
+				wo.Violations = append(wo.Violations, violOut{Key: vk, Detail: det, Plan: pf, Seed: s})
+			}
+		}
+		if stop || len(wo.Violations) >= maxViol {
+			break
 		}
 	}
 	wo.WallMs = time.Since(start).Milliseconds()
